@@ -27,7 +27,8 @@ CONSTANTS ShapeIds,   \* subset of DOMAIN ShapeTab \cup DOMAIN MissingTab: ALL c
           Mols,       \* molecular types of the initial alignment: subset of {"dna","rna","protein"}
           MaxDepth,   \* histories of at most this many operations
           MaxLen,     \* concatenation / sampling never grows an alignment beyond this many columns
-          Forms       \* spellings of slice arguments: subset of {"plain","open","neg","over"}
+          Forms,      \* spellings of slice arguments: subset of {"plain","open","neg","over"}
+          PairFamily  \* "cuts" or "all": which pairs of slices of ONE object are concatenated (ConcatSlices)
 
 VARIABLES kind, mol, rows, base, depth
 vars == <<kind, mol, rows, base, depth>>
@@ -170,6 +171,18 @@ RowLists(r) ==   \* positions of the current rows, in the order requested
     {<<i>> : i \in 1..r} \cup {<<x[1], x[2]>> : x \in {y \in (1..r) \X (1..r) : y[1] # y[2]}} \cup {Rev(Range0(1, r + 1))}
 RowSets(r) == {{}} \cup {{i} : i \in 1..r} \cup {1..r}
 
+(* pairs <<a,b,c,d>> of slices [a:b], [c:d] of the same object, for x[a:b] + x[c:d].        *)
+(* "all": every pair (empty, overlapping, swapped, nested ...).  "cuts": the non-empty pairs  *)
+(* that meet at a cut -- in display order (b = c), swapped (d = a), swapped with one column   *)
+(* shared (d = a + 1) or one column skipped (d = a - 1); these are the pairs whose residues    *)
+(* can be neighbours in the underlying sequence when a row is all gap in between.              *)
+SliceQuads(n) ==
+    LET S == {p \in (0..n) \X (0..n) : p[1] <= p[2]}
+        All == {<<p[1], p[2], q[1], q[2]>> : p \in S, q \in S}
+    IN IF PairFamily = "all" THEN All
+       ELSE {x \in All : x[1] < x[2] /\ x[3] < x[4]
+                          /\ (x[2] = x[3] \/ x[4] = x[1] \/ x[4] = x[1] + 1 \/ x[4] + 1 = x[1])}
+
 ReplLocs(p) == IF p = 0 THEN {} ELSE {<<p - 1, 0, 0>>, <<0>>} \cup (IF p >= 2 THEN {<<1, 1>>} ELSE {})
 Perms(p) == IF p = 0 THEN {} ELSE {Rev(Range0(0, p)), [k \in 1..p |-> k % p]}
 
@@ -274,6 +287,14 @@ ConcatT(w) ==
     /\ Set("aln", mol, ConcatRows(rows, Other(w)))
 Concat(w) == ConcatT(w) /\ Log("Concat", <<w>>)
 
+(* x[a:b] + x[c:d]: BOTH operands are views of the same object (same underlying sequences, *)
+(* same strand), in any order; the result is the column-wise concatenation of the strings  *)
+ConcatSlicesT(a, b, c, d) ==
+    /\ Aln /\ a \in 0..N /\ b \in a..N /\ c \in 0..N /\ d \in c..N
+    /\ (b - a) + (d - c) <= MaxLen
+    /\ Set("aln", mol, ConcatRows(SliceRows(rows, a, b), SliceRows(rows, c, d)))
+ConcatSlices(a, b, c, d) == ConcatSlicesT(a, b, c, d) /\ Log("ConcatSlices", <<a, b, c, d>>)
+
 ToTypeT(arr) == Aln /\ arr \in BOOLEAN /\ Set("aln", mol, rows)
 ToType(arr) == ToTypeT(arr) /\ Log("ToType", <<arr>>)
 
@@ -302,6 +323,7 @@ Next ==
     \/ \E ml \in {1, 2} : \E locs \in ReplLocs(NMotifs(rows, ml)) : SampleRepl(locs, ml)
     \/ \E ml \in {1, 2} : \E perm \in Perms(NMotifs(rows, ml)) : \E k \in {1, Len(perm)} : SamplePerm(perm, k, ml)
     \/ \E w \in {"self", "fresh", "reorder", "rc", "first", "last"} : Concat(w)
+    \/ \E q \in SliceQuads(N) : ConcatSlices(q[1], q[2], q[3], q[4])
     \/ \E arr \in BOOLEAN : ToType(arr)
     \/ \E m \in {"dna", "rna"} : ToMolA(m)
     \/ Degap
@@ -342,6 +364,8 @@ SliceCommutesWithTakeSeqs ==
 RcOfSliceIsSliceOfRc ==
     (kind = "aln" /\ Nucleic) => \A p \in SlicePairs(N) : p[1] <= p[2] =>
         RcRows(SliceRows(rows, p[1], p[2]), mol) = SliceRows(RcRows(rows, mol), N - p[2], N - p[1])
+ConcatOfCutIsIdentity ==
+    kind = "aln" => \A k \in 0..N : ConcatRows(SliceRows(rows, 0, k), SliceRows(rows, k, N)) = rows
 NegateKeepsTheOthers ==
     kind = "aln" => \A cols \in ColLists(N) :
         NCols(DropCols(rows, SeqRange(cols))) + Cardinality(SeqRange(cols)) = N
